@@ -432,8 +432,12 @@ class Facts:
             self.raw = json.load(f)
         self.bodies = {}
         self.dups = defaultdict(list)
+        self.promoted = {}
         for d in self.raw['bodies']:
             b = Body(d, self)
+            if d['kind'] == 'Promoted':
+                self.promoted[d['path']] = b
+                continue
             if d['path'] in self.bodies:
                 self.dups[d['path']].append(b)
             else:
@@ -449,6 +453,17 @@ class Facts:
 
     def body(self, path):
         return self.bodies.get(path)
+
+    def promoted_value(self, owner_path, idx):
+        """Value term of a promoted constant (as produced by symex), e.g. ('ref', ('agg', ...))."""
+        b = self.promoted.get('%s::promoted[%d]' % (owner_path, idx))
+        if b is None:
+            return None
+        from symex import SymEx
+        ps = [p for p in SymEx(b, self).run() if p.end[0] == 'return']
+        if len(ps) == 1:
+            return ps[0].ret
+        return None
 
     def find(self, pat):
         rx = re.compile(pat)
